@@ -242,6 +242,12 @@ class AppEnv:
                 for mf in mfs:
                     mf.parse_media_file()
                 models.db.session.commit()
+                spk = stream.pk
+                # reload from the database, as the real handlers do: a freshly indexed
+                # Representation object has not counted its segments yet
+                models.db.session.remove()
+                stream = models.Stream.get(pk=spk)
+                mfs = sorted(stream.media_files, key=lambda m: m.name)
                 ref = None
                 if timing_ref == 'auto':
                     for mf in mfs:
